@@ -107,7 +107,8 @@ def model_fetch_obs(r):
     if r[0] == "ok":
         return ["ok", r[1]]
     if r[0] == "notachoice":
-        return ["err", "Sorry", "NotAChoice", r[1], r[3]]
+        # "\n    ".join([]) and "\n    ".join([""]) print the same text: an empty list reads back as [""]
+        return ["err", "Sorry", "NotAChoice", r[1], r[3] or [""]]
     if r[0] == "crash":
         return ["err", "other:" + r[1]]
     return ["model?", r]
@@ -455,7 +456,7 @@ class FetchParsed(Stream):
                     for mu, o in combos:
                         yield [mw, sw, mu, o]
         # random: larger pools, odd names, random token soups
-        nrand = 4000 if quick else 60000
+        nrand = 6000 if quick else 80000
         toks = ["+", "*", "None", "Auto", "zz", "*zz", "ZZ", "++", "a+", "+b"]
         for i in range(nrand):
             n = rng.randint(2, 5)
@@ -644,10 +645,8 @@ class FetchDirect(Stream):
                 for t in itertools.product(DVALS, repeat=k):
                     sw = [[v, "n", 7 + j] for j, v in enumerate(t)]
                     idx += 1
-                    if quick and k == 2 and idx % 3:
-                        continue
                     yield [mw, sw, bool(idx % 2), ["None", "True", "False", "Auto"][idx % 4], idx % 5 == 0]
-        nrand = 4000 if quick else 80000
+        nrand = 12000 if quick else 150000
         for i in range(nrand):
             mw = [[rng.choice(DVALS), rng.choice("nnnn12"), rng.randint(0, 3)] for _ in range(rng.randint(0, 4))]
             sw = [[rng.choice(DVALS) if rng.random() < 0.5 or not mw else
@@ -685,7 +684,7 @@ class FetchDirect(Stream):
         # the res-typed wrapper choice_fetch must tell the same story as choice_fetch_x
         a = model_fetch_obs(r2[0])
         b = model_res_obs(r2[1])
-        if a[:3] != b[:3] and not (a[0] == "ok" and b == a):
+        if a[:3] != b[:3]:
             return ["model wrapper mismatch", a, b]
         return [model_fetch_obs(r[0]), model_res_obs(r[1])]
 
@@ -853,8 +852,7 @@ SPEC = {
             "starred names alone, bare single names in 4 case variants, quoted names, None/Auto spellings, + forms glued and "
             "spaced with leading/trailing/double +, unknown names starred or not, the same name twice with different stars) x "
             "2 of the 6 (multi, optional) combinations in quick, all 6 in thorough; plus seeded random lists and token soups. "
-            "fetch_direct: all bare source lists of length <= 2 over a 24-value alphabet x 12 masters (quick: a third of the "
-            "pairs), plus random word lists with quotes, lines, ignore_errors, optional=Auto. distinct = distinct case; "
+            "fetch_direct: all bare source lists of length <= 2 over a 24-value alphabet x 12 masters, plus random word lists with quotes, lines, ignore_errors, optional=Auto. distinct = distinct case; "
             "non-trivial = parsed as intended / non-empty source",
     "trusted": ["Modelled: tokens.is_plain_none/is_plain_auto, choice_converters.fetch (all branches), from_words, as_words, "
                 "__str__; str.split/strip/find/startswith/lower on Latin-1. The parser, scope.fetch dispatch and "
